@@ -83,7 +83,7 @@ LEAN = {
 }
 
 PROPS = {
-    "C01": dict(probes=["v3"], functions=CANON + SERIAL + V3000 + V2000, lean=["pipeline", "canonicalize", "finallabels", "layout", "serialize", "reader", "fileiso", "fileisostar"], diff=["pipeline", "io"],
+    "C01": dict(probes=["v3"], functions=CANON + SERIAL + V3000 + V2000, lean=["pipeline", "canonicalize", "finallabels", "layout", "serialize", "reader", "fileiso", "fileisostar", "v2000file", "witness2"], diff=["pipeline", "io"],
                 bounded=[("pipeline", "c01"), ("c01_text", None)],
                 canary="C01"),
     "C02": dict(probes=["v3"], functions=CANON + SERIAL + PARSER, lean=["roundtrip", "layout", "parser", "canonicalize"], diff=["pipeline", "parser"], bounded=[("c02", None)]),
@@ -108,8 +108,8 @@ PROPS = {
 # level "proof": every link of the argument is a discharged Lean obligation over code extracted on this run (dependency
 # contracts V3-V6 are hypotheses of the theorems); the bounded part then only serves as refuter and as probe of the model.
 TOP = {
-    "C01": dict(level="proof", theorems=["Contracts.Pipeline.C01_main", "Contracts.Pipeline.C01_tucan", "Contracts.FinalLabels.assign_final_labels_order_independent", "Contracts.FileIso.C01_files", "Contracts.FileIso.C01_C06_files", "Contracts.FileIso.C01_C06_texts", "Contracts.FileIsoStar.C01_C06_files_star"],
-                note="graph level: any renaming, listing order and set order (two different set orders allowed); file level: two V3000 texts with atom lines permuted, indices renumbered, bond lines permuted and endpoints swapped are both read and get one common string (FileIso.C01_files; V2000 counterpart over parsed line data). Tables with star atoms (multi-attachment bonds, ENDPTS) at file level: FileIsoStar.C01_C06_files_star over the non-star atom lines and the linked relation (a bond may be written as an ordinary bond line in one file and through a star atom in the other); the star-free theorem is its special case (plain_is_special_case). Hypotheses that are assumptions: BlissLawful (bliss contract, probe V3), SetLawful"),
+    "C01": dict(level="proof", theorems=["Contracts.Pipeline.C01_main", "Contracts.Pipeline.C01_tucan", "Contracts.FinalLabels.assign_final_labels_order_independent", "Contracts.FileIso.C01_files", "Contracts.FileIso.C01_C06_files", "Contracts.FileIso.C01_C06_texts", "Contracts.FileIsoStar.C01_C06_files_star", "Contracts.Witness2.C06_v2000_renderings"],
+                note="graph level: any renaming, listing order and set order (two different set orders allowed); file level: two V3000 texts with atom lines permuted, indices renumbered, bond lines permuted and endpoints swapped are both read and get one common string (FileIso.C01_files); two V2000 files of one molecule with the atom lines in another order (in V2000 the listing order is the numbering), bond lines in any order and direction, any encoding choices: Witness2.C06_v2000_renderings. Tables with star atoms (multi-attachment bonds, ENDPTS) at file level: FileIsoStar.C01_C06_files_star over the non-star atom lines and the linked relation (a bond may be written as an ordinary bond line in one file and through a star atom in the other); the star-free theorem is its special case (plain_is_special_case). Hypotheses that are assumptions: BlissLawful (bliss contract, probe V3), SetLawful"),
     "C02": dict(level="proof", theorems=["Contracts.RoundTrip.C02_pipeline'", "Contracts.RoundTrip.C02_main'", "Contracts.RoundTrip.render_inj"],
                 note="equal strings imply a colour-preserving isomorphism of the input molecules; unconditional on ANTLR (proved through injectivity of the rendering); under BlissLawful/SetLawful only for the pipeline runs to succeed"),
     "C03": dict(level="proof", theorems=["Contracts.Final.C03_fixpoint", "Contracts.Final.C03_fixpoint_ex", "Contracts.RoundTrip.C03_pipeline", "Contracts.RoundTrip.C03_main", "Contracts.Parser.graph_from_tree_ok"],
